@@ -290,6 +290,16 @@ class OpsMixin:
 
     # ---- equality --------------------------------------------------------------
     def eq(self, a: Val, b: Val):
+        for x, y in ((a, b), (b, a)):
+            if x.meta and x.meta.get("empty") and not y.is_py and not (y.meta and y.meta.get("empty")):
+                if y.ty.kind == "dict":
+                    return self.dict_dom(y) == self.empty_set(y.ty.args[0]).t
+                if y.ty.kind == "set":
+                    return y.t == self.empty_set(y.ty.args[0]).t
+                if y.ty.kind in ("seq", "str"):
+                    return z3.Length(y.t) == 0
+                if y.ty.kind == "opt":
+                    return z3.And(z3.Not(self.is_none(y)), self.eq(x, self.unwrap(y)))
         if a.is_py and b.is_py:
             return z3.BoolVal(self._py_eq(a.t, b.t))
         if a.is_py:
